@@ -188,6 +188,12 @@ def check_array_like(run, f, rule='R10a'):
                 if not ok:
                     und.append((x, 'element of a display'))
                     continue
+            elif isinstance(pr, ast.Return) and pr.value is x and not dominated:
+                # the raw argument itself is the result: a list comes back as a list, a (1,N) array as a (1,N) array, a vector of
+                # the wrong length is answered instead of rejected
+                bad.append((x, 'the raw argument is returned as the result (return %s): the container and shape of the answer depend on '
+                            'the form the caller used, and a wrong length is not rejected on this path' % p))
+                continue
             elif isinstance(pr, ast.Return) or isinstance(pr, ast.Assign) or isinstance(pr, ast.keyword):
                 ok = True
             elif isinstance(pr, (ast.If, ast.While, ast.BoolOp, ast.UnaryOp, ast.IfExp)):
